@@ -25,6 +25,7 @@ UNIT_PROPS = {
     "service_relay": ["C11", "C10"],
     "fetch_ancestry": ["C02", "C01"],
     "wire_codec": ["C15"],
+    "term_line": ["C26"],
     "fetch_validate": ["C01"],
     "service_inventory": ["C11"],
 }
@@ -198,10 +199,10 @@ PROPS = {
         "not_decided": "success_counts (fold closures), next_node (iter::from_fn + find_map), Announcer::new, Fetcher::finish, missing_seeds are not ingested; the counts are ghost values assumed to be what success_counts returns.",
     },
     "C26": {
-        "vx": ["term"],
+        "vx": ["term", "term_line"],
         "kx": [],
         "technique": "Verus loop invariant + postcondition on the extracted <str as Cell>::truncate over an assumed grapheme/width model of strings; every slice index must be a char boundary (precondition of the slicing stand-ins)",
         "explanation": "Relative to the assumed string model (grapheme clusters tile the string and end on char boundaries, width is additive over clusters, an ASCII space is one byte and one column), <str as Cell>::truncate never slices at a non-boundary, never overflows, and returns text whose display width is at most the requested width, for every input string, width and delimiter (including the empty delimiter and multi-byte whitespace).",
-        "not_decided": "Line::truncate (loop over items with Option::map_or / last_mut closures) and its termination are not ingested; the string model itself (unicode-segmentation, unicode-display-width, format!/to_owned) is assumed, so this is a proof about the index/width arithmetic of the function, not about Unicode.",
+        "not_decided": "Line::truncate is under contract in unit term_line (ends within the width, no underflow, terminates -- relative to the assumed contract 'a truncated label is never wider than requested', which unit term proves for str only; Label/Paint delegate to it by inspection); the string model itself (unicode-segmentation, unicode-display-width, format!/to_owned) is assumed, so this is a proof about the index/width arithmetic of the function, not about Unicode.",
     },
 }
